@@ -371,7 +371,11 @@ def run_property(pid, tier, seed):
                 else:
                     validated += 1
         # ---- counterexamples: replay before reporting
-        for v in d['violations']:
+        # replay a bounded number of counterexamples per run (distinct obligations first)
+        seen_kinds = set()
+        ordered = [v for v in d['violations'] if not (v['kind'] in seen_kinds or seen_kinds.add(v['kind']))]
+        ordered += [v for v in d['violations'] if v not in ordered]
+        for v in ordered[:8]:
             kf = matches_known(pid, r, v, known)
             reps = {}
             reproduced = False
